@@ -36,6 +36,14 @@ def limit_part(ctx):
                     if a is None or b is None or a != a or b != b:
                         undecided += 1
                         continue
+                    import math
+                    if math.isinf(a) or math.isinf(b):
+                        # the float conversion overflowed: the sequence diverges as far as this comparison can tell
+                        if lim.get("inf"):
+                            checked += 1
+                        else:
+                            undecided += 1
+                        continue
                     converged = abs(a - b) <= 1e-9 * (abs(b) + 1)
                     if lim.get("inf"):
                         checked += 1
